@@ -17,10 +17,10 @@ if os.environ.get('VERIF_C03_NOFIX'):
     FIX = {'FixF3': 'FALSE', 'FixF15': 'FALSE'}
 
 
-def fam(name, adders, rot, counters, warm, init_open, clock, cap, max_extra=None, warm_cell=1, nrot=1):
-    total = sum(n for (_t, _c, n) in adders) + len(warm)
+def fam(name, adders, rot, counters, warm, init_open, clock, cap, max_extra=None, warm_cell=1, nrot=1, capnew=4, amt=None, unit=0):
+    total = sum(n * (amt or {}).get(_t, 1) for (_t, _c, n) in adders) + len(warm)
     return dict(name=name, adders=adders, rot=rot, counters=counters, warm=warm, init_open=init_open, clock=clock,
-                cap=cap, max_extra=max_extra or max(3, total), warm_cell=warm_cell, nrot=nrot)
+                cap=cap, max_extra=max_extra or max(3, total), warm_cell=warm_cell, nrot=nrot, capnew=capnew, amt=amt or {}, unit=unit)
 
 
 def families(tier):
@@ -40,6 +40,13 @@ def families(tier):
         # two rotations in a row (the clock moves on between them): the second one meets the state the first left
         # behind (a closed previous mapping, counters invalidated once already, a counter re-registered in between)
         fam('rotation2x', [('a1', 'c1', 2)], ['r'], ['c1'], ['c1'], True, 2, 2, nrot=2),
+        # three counters were incremented before the file is opened; the file the opener finds has ONE free
+        # slot: flushing the second pending counter grows the file in the middle of invalidateCounters, and the
+        # nested invalidation meets the third, still pending, counter
+        # amounts: one Add whose amount alone exceeds the limit of the in-memory value (2^33-1), next to a small one,
+        # before the file is open: the pending value sticks at the limit (model unit = 2^31, limit = 4 units)
+        fam('extrasat2', [('a1', 'c1', 1), ('a2', 'c1', 1)], [], ['c1'], [], False, 1, 0, max_extra=4, amt={'a2': 4}, unit=31),
+        fam('openflush', [('a1', 'c1', 1)], ['r'], ['c1', 'c2', 'c3'], ['c1', 'c2', 'c3'], False, 1, 0, capnew=1),
     ]
     big = [
         fam('rotation1x2', [('a1', 'c1', 2)], ['r'], ['c1'], ['c1'], True, 2, 2),
@@ -66,18 +73,22 @@ MCRot == %s
 MCCtrOf == %s
 MCNAdds == %s
 MCNRot == %s
+MCWarmSeq == <<%s>>
+MCAmt == %s
 ====
 ''' % (name, base, sset(ad), sset(f['rot']),
        '(' + ' @@ '.join('"%s" :> "%s"' % (a[0], a[1]) for a in f['adders']) + ')' if ad else '<<>>',
        '(' + ' @@ '.join('"%s" :> %d' % (a[0], a[2]) for a in f['adders']) + ')' if ad else '<<>>',
-       '(' + ' @@ '.join('"%s" :> %d' % (r, f.get('nrot', 1)) for r in f['rot']) + ')' if f['rot'] else '<<>>')
+       '(' + ' @@ '.join('"%s" :> %d' % (r, f.get('nrot', 1)) for r in f['rot']) + ')' if f['rot'] else '<<>>',
+       ', '.join('"%s"' % c for c in f['warm']),
+       '(' + ' @@ '.join('"%s" :> %d' % (a[0], f.get('amt', {}).get(a[0], 1)) for a in f['adders']) + ')' if ad else '<<>>')
 
 
 def mc_cfg(f, spec='Spec', invariants=(), props=(), view=True, deadlock=False, fix=None):
     fx = fix or FIX
-    s = 'SPECIFICATION %s\nCONSTANTS\n Adders <- MCAdders\n Rotators <- MCRot\n CtrOf <- MCCtrOf\n NAdds <- MCNAdds\n NRot <- MCNRot\n' % spec
-    s += ' Counters = %s\n Warm = %s\n InitOpen = %s\n ClockSpan = %d\n Capacity = %d\n CapNew = 4\n GrowBy = 4\n MaxExtra = %d\n MaxCell = 15\n WarmCell = %d\n' % (
-        sset(f['counters']), sset(f['warm']), 'TRUE' if f['init_open'] else 'FALSE', f['clock'], f['cap'], f['max_extra'], f['warm_cell'])
+    s = 'SPECIFICATION %s\nCONSTANTS\n Adders <- MCAdders\n Rotators <- MCRot\n CtrOf <- MCCtrOf\n NAdds <- MCNAdds\n NRot <- MCNRot\n WarmSeq <- MCWarmSeq\n Amt <- MCAmt\n' % spec
+    s += ' Counters = %s\n Warm = %s\n InitOpen = %s\n ClockSpan = %d\n Capacity = %d\n CapNew = %d\n GrowBy = 4\n MaxExtra = %d\n MaxCell = 15\n WarmCell = %d\n' % (
+        sset(f['counters']), sset(f['warm']), 'TRUE' if f['init_open'] else 'FALSE', f['clock'], f['cap'], f.get('capnew', 4), f['max_extra'], f['warm_cell'])
     s += ' FixF3 = %s\n FixF15 = %s\n' % (fx['FixF3'], fx['FixF15'])
     if invariants:
         s += 'INVARIANTS ' + ' '.join(invariants) + '\n'
@@ -176,7 +187,7 @@ def label_script(states, sequential=False):
 
 
 def run_cfg(f, rid, schedule, finish, seed, trace=True):
-    return dict(id=rid, family=f['name'], adders=[dict(name=a[0], ctr=a[1], n=a[2]) for a in f['adders']], rotators=f['rot'], nRot=f.get('nrot', 1),
+    return dict(id=rid, family=f['name'], adders=[dict(name=a[0], ctr=a[1], n=a[2], amt=f.get('amt', {}).get(a[0], 1)) for a in f['adders']], unit=f.get('unit', 0), rotators=f['rot'], nRot=f.get('nrot', 1), capNew=(f.get('capnew', 4) if f.get('capnew', 4) != 4 else -1),
                 counters=f['counters'], warm=f['warm'], initOpen=f['init_open'], clock2=(f['clock'] == 2), capacity=f['cap'],
                 maxExtra=f['max_extra'], warmCell=f['warm_cell'], maxCell=15, schedule=schedule, finish=finish, seed=seed, trace=trace)
 
@@ -347,7 +358,7 @@ def run(ctx):
             f, why = runfam[k]
             if sig.endswith('hold-after-close') and k in obs:
                 sig += ':' + signature_context(res, obs[k], None, f)
-            ctx.violation(sig, {'run': runs[k - 1], 'result': {x: res[x] for x in ('status', 'fault', 'st', 'ptr', 'cell1', 'cell2', 'cell3', 'begun', 'schedule')}},
+            ctx.violation(sig, {'run': runs[k - 1], 'result': {x: res.get(x) for x in ('status', 'fault', 'st', 'ptr', 'cell1', 'cell2', 'cell3', 'begun', 'schedule')}},
                           '%s run %d (%s): %s %s' % (f['name'], k, why, res['status'], json.dumps(res.get('fault'))))
     ctx.cov['runs'] = len(runs)
     ctx.cov['runs_failed'] = nfail
@@ -363,7 +374,8 @@ def run(ctx):
             o2 = {x: o[x] for x in ('run', 'i', 't', 'st', 'ptr', 'cur', 'open', 'cell1', 'cell2', 'cell3', 'begun', 'done', 'faulted', 'fileopen')}
             o2['ntasks'] = len(runs[k - 1]['adders']) + len(runs[k - 1]['rotators'])
             o2['final'] = False
-            o2['sat'] = runs[k - 1]['warmCell'] != 1
+            o2['sat'] = runs[k - 1]['warmCell'] != 1 or runs[k - 1]['unit'] > 0
+            o2['satlimit'] = runs[k - 1]['maxExtra'] if runs[k - 1]['unit'] > 0 else runs[k - 1]['maxCell']
             lines.append(o2)
             index.append(k)
         if res['status'] == 'ok':
